@@ -755,6 +755,57 @@ def literal_bindings_do_not_outlive_the_call(col):
                 break
 
 
+def nothing_outlives_the_call_through_any_entry_point(col):
+    """"S.globals ... never into the next call", "bindings never outlive the call" - for every way of making the call: glom(), one
+    Glommer used repeatedly, different Glommers, Spec(..).glom(), after calls that succeeded and after calls that failed"""
+    gl_a, gl_b = Glommer(), Glommer(register_default_types=True)
+    sp_set = Spec((A.globals.k, A.w, S.globals.k))
+    entries = [('glom', G), ('one Glommer', gl_a.glom), ('another Glommer', gl_b.glom), ('Glommer made now', lambda t, s, **kw: Glommer().glom(t, s, **kw)),
+               ('Spec(..).glom', lambda t, s, **kw: Spec(s).glom(t, **kw)), ('Spec(.., scope={..}).glom', lambda t, s, **kw: Spec(s, scope={'own': 1}).glom(t, **kw))]
+    read_g = Coalesce(S.globals.k, default='unset')
+    read_w = Coalesce(S.w, default='unset')
+    writers = [('A.globals.k', lambda: (A.globals.k, A.w, S.globals.k), 'ok'), ('A.globals.k then failing', lambda: (A.globals.k, A.w, 'nope.nope'), 'fail'),
+               ('S(globals-free w=..)', lambda: (S(w=T), A.globals.k, S.w), 'ok'), ('A.globals.k inside a list', lambda: [(A.globals.k, S.globals.k)], 'ok-list'),
+               ('A.globals.k in an abandoned branch', lambda: Coalesce((A.globals.k, A.w, 'nope'), default='d'), 'ok')]
+    n = 0
+    for wname, mk_writer, kind in writers:
+        for e1name, e1 in entries:
+            for e2name, e2 in entries:
+                n += 1
+                wrote = call(e1, [n] if kind == 'ok-list' else n, mk_writer())
+                col.case(('outlives', wname, e1name, e2name), True)
+                col.count('reader_observations', 2)
+                if (kind == 'fail') == wrote.ok:
+                    col.violation('C07/writer-call-unexpected-outcome', '%s via %s: %r' % (wname, e1name, wrote), None)
+                    continue
+                for rname, reader in (('S.globals.k', read_g), ('S.w', read_w)):
+                    got = call(e2, {'t': 1}, reader)
+                    if not (got.ok and got.value == 'unset'):
+                        col.violation('C07/binding-outlives-the-call:%s:%s' % (rname, 'same-entry' if e1name == e2name else 'another-entry'),
+                                      'call 1 (%s via %s) bound a value (%r); call 2 (via %s) reads %s = %r, expected it unbound'
+                                      % (wname, e1name, n, e2name, rname, got), None)
+    # Ref names are a namespace of their own: a definition Ref(name, ..) and a binding S(name=..) / A.name / scope={name: ..} of the same
+    # name do not see each other
+    tree = lambda: {'v': 1, 'kids': [{'v': 2, 'kids': []}, {'v': 3, 'kids': [{'v': 4, 'kids': []}]}]}
+    progs = [
+        ('scope= value named like the Ref', lambda: G({'a': 1}, Ref('cfg', (S.cfg, lambda c: c + 1)), scope={'cfg': 41}), 42),
+        ('S(name=..) around a Ref of that name', lambda: G(tree(), (S(node='bound'), Ref('node', {'v': 'v', 'tag': S.node, 'kids': ('kids', [Ref('node')])}))),
+         {'v': 1, 'tag': 'bound', 'kids': [{'v': 2, 'tag': 'bound', 'kids': []}, {'v': 3, 'tag': 'bound', 'kids': [{'v': 4, 'tag': 'bound', 'kids': []}]}]}),
+        ('A.name inside the Ref of that name', lambda: G(tree(), Ref('node', {'v': 'v', 'kids': ('kids', [(A.node, Ref('node'))])})),
+         {'v': 1, 'kids': [{'v': 2, 'kids': []}, {'v': 3, 'kids': [{'v': 4, 'kids': []}]}]}),
+        ('A.name then S.name inside the Ref of that name', lambda: G(tree(), Ref('node', ('v', A.node, S.node))), 1),
+        ('unbound S.name inside a Ref of that name', lambda: G({'a': 1}, Ref('item', Coalesce(S.item, default='unbound'))), 'unbound'),
+        ('Ref definition does not bind a variable', lambda: G({'a': 1}, (Ref('r', 'a'), Coalesce(S.r, default='unbound'))), 'unbound'),
+        ('S(name=spec-like value) is not a definition', lambda: G({'a': 1}, (S(r=Val('a')), Ref('r'))), Fail),
+    ]
+    for desc, prog, want in progs:
+        got = call(prog)
+        col.case(('ref-names-vs-bindings', desc), True)
+        col.count('reader_observations')
+        if (want is Fail and got.ok) or (want is not Fail and not (got.ok and got.value == want)):
+            col.violation('C07/Ref-name-and-binding-name-collide', '%s: %r, expected %r' % (desc, got, want), None)
+
+
 def deep_shadowing(col):
     """shadowing, Spec(scope=) overriding and Ref resolution do not depend on how far below the binder the reader sits: chains of up
     to 150 steps after the inner binder, up to 60 levels of dict / list nesting, Ref recursions up to 60 levels deep that re-bind a
@@ -1025,6 +1076,7 @@ def run(ctx):
             matchdict_two_keys(col, rng)
             literal_bindings_do_not_outlive_the_call(col)
             deep_shadowing(col)
+            nothing_outlives_the_call_through_any_entry_point(col)
         for i in range(ctx.n(6000, 40000)):
             one_case(col, rng, tracer)
         tracer.uninstall()
